@@ -165,7 +165,7 @@ def definition_line(rng):
                                               rng.choice(HOSTILE_REGEX)]),
                                   rng.choice(['', 'i', 'g', 'm', 'ig']),
                                   rng.choice(['bar', '[$1]', '$$1', '<b>$1</b>', '$2$1', '', '&hellip;', '{m1}', 'v {m2|a|b}', '$a $1', '$$b',
-                                              '$_x', '\\$1', '$']))
+                                              '$_x', '\\$1', '$', '<i>$0</i>', '$0$1', '[$$0]', '$9', '$0 $2', '<a href="$0">$1</a>']))
     if k == 3:
         return "|%s| = '%s'" % (rng.choice(BLOCK_NAMES),
                                 rng.choice(['<section>|</section>', '<p class="x">|</p> +spans', '-macros', '+skip', 'junk',
